@@ -126,6 +126,10 @@ M: List[Tuple[str, str, str, str, str]] = [
     ('c08-revert-upgrade-check-on-incomplete-parser', 'C08', 'proxy/http/proxy/server.py',
      "                        self.pipeline_request.is_complete and \\\n                        self.pipeline_request.is_connection_upgrade:",
      "                        self.pipeline_request.is_connection_upgrade:"),
+    ('c17-revert-undecodable-target-fix', 'C17', 'proxy/http/proxy/server.py',
+     "'request_path': text_(self.request.path, errors='replace'),", "'request_path': text_(self.request.path),"),
+    ('c10-revert-undecodable-target-fix', 'C10', 'proxy/http/proxy/server.py',
+     "'request_path': text_(self.request.path, errors='replace'),", "'request_path': text_(self.request.path),"),
     # ---- C14 ---------------------------------------------------------------
     ('c14-default-port-8080', 'C14', 'proxy/http/parser/parser.py',
      "                    if self._url.port is not None else DEFAULT_HTTP_PORT",
